@@ -78,6 +78,14 @@ class Ctx:
                 return
         self.violation("[%s] %s" % (key, what), replay_obj)
 
+    def finding_or_violation(self, focus, fx, w, clause):
+        """a rejected lifecycle history: classified by the operation at which it was rejected"""
+        from harness.lifecycle import _ops
+        ops = _ops(w)
+        what = "fixture %s: real history rejected by TraceLifecycle(%s) at clause '%s'; operations: %s" % (
+            fx.name, focus, clause, json.dumps(ops)[:700])
+        self.violation(what, {"kind": "history", "fixture": fx.name, "ops": ops, "clause": clause})
+
     def is_known(self, key):
         return any(f["key"] == key and f["status"] == "known" for f in self.findings)
 
